@@ -480,6 +480,14 @@ class BuiltinMixin:
         items = self.iter_items(args[0], st)
         if items is not None:
             return [Ev(st, SetV(items))]
+        from . import ghost as _g
+        from .expr import SymSetV
+        if isinstance(args[0], (OpaqueV, _g.PyArrV)):
+            if isinstance(args[0], OpaqueV):
+                self.assumption("set(x) of an argument used as a collection of keys: x is iterable and its elements hashable")
+            else:
+                args[0].iter_view(self, st)
+            return [Ev(st, SymSetV(z3.Const(fresh_name("symset"), Py)))]
         raise OutOfReach("set() of %s" % args[0].kind)
 
     def bi_zip(self, st, args, kwargs, fx):
